@@ -596,7 +596,9 @@ class BPAdapter:
                 mp = getattr(m, name)
                 for k, x in (v.items() if isinstance(v, dict) else v):
                     mp[k] = self.single(ec, fi.val, x, False)
-            elif fi.card == "single" and not fi.oneof and fi.type == "message" and fi.wkt is None and v and lazy_depth > 0:
+            elif (fi.card == "single" and not fi.oneof and fi.type == "message" and fi.wkt is None and lazy_depth > 0
+                  and norm(self.schema, self.schema.msg(fi.msg), v)):
+                # (a sub-tree that amounts to "present but empty" cannot be produced by in-place mutation: it is assigned)
                 self.fill_lazily(getattr(m, name), self.schema.msg(fi.msg), v, lazy_depth - 1)
             else:
                 setattr(m, name, self.single(ec, fi, v, fi.card == "single" and not fi.oneof))
